@@ -315,6 +315,45 @@ partial def objOps (s : SysObj Rat) (acc : List String) : List String → Option
         objOps s' (("{\"read\":" ++ (match systemRead fr eps t with | none => "null" | some x => jSys x) ++ "}") :: acc) r1
   | _ => none
 
+/-! ### structure-only trees for the `finds` op: `N <id> <k> (<key> <tree>)^k | L <k> <tree>^k | S <id>`; a dictionary
+   carries its id in a last entry `#id` -/
+mutual
+  partial def pTree : List String → Option (DM Rat × List String)
+    | "S" :: i :: r => i.toInt?.map (fun n => (.leaf (.int n), r))
+    | "N" :: i :: k :: r =>
+      match i.toInt?, k.toNat? with
+      | some id, some k =>
+        match pEntries k r with
+        | some (kv, r') => some (.node (kv ++ [("#id", .leaf (.int id))]), r')
+        | none => none
+      | _, _ => none
+    | "L" :: k :: r =>
+      match k.toNat? with
+      | some k => (pItems k r).map (fun (l, r') => (.list l, r'))
+      | none => none
+    | _ => none
+  partial def pEntries : Nat → List String → Option (List (String × DM Rat) × List String)
+    | 0, r => some ([], r)
+    | n + 1, key :: r =>
+      match pTree r with
+      | some (v, r') => (pEntries n r').map (fun (kv, r'') => ((key, v) :: kv, r''))
+      | none => none
+    | _, _ => none
+  partial def pItems : Nat → List String → Option (List (DM Rat) × List String)
+    | 0, r => some ([], r)
+    | n + 1, r =>
+      match pTree r with
+      | some (v, r') => (pItems n r').map (fun (l, r'') => (v :: l, r''))
+      | none => none
+end
+
+def treeId : DM Rat → Int
+  | .leaf (.int i) => i
+  | .node kv => match kv.lookup "#id" with
+    | some (.leaf (.int i)) => i
+    | _ => -1
+  | _ => -1
+
 def handleC10 (toks : List String) : String :=
   match toks with
   | "uc" :: via :: r =>
@@ -479,6 +518,16 @@ def handleC10 (toks : List String) : String :=
           | none => "{\"read\":null}"
           | some l => "{\"read\":" ++ jList (l.map jFlt) ++ "}"
         | _ => err "format"
+    | _ => err "format"
+  | "finds" :: key :: index :: r =>
+    -- finds <key> <index> <tree>: the ids of `DataModelDict.finds(key)` in order, and the id `load(key=, index=)` takes
+    match pTree r with
+    | some (t, []) =>
+      let ids := (t.finds key).map treeId
+      let pick : String := match index.toInt? with
+        | some i => (match pyIndex ids i with | some x => toString x | none => "null")
+        | none => "null"
+      "{\"ids\":" ++ jList (ids.map toString) ++ ",\"pick\":" ++ pick ++ "}"
     | _ => err "format"
   | "obj" :: r =>
     -- obj <12 rationals: a b c origin> <natoms> <3·natoms rationals: pos> <operations…>
